@@ -6,7 +6,7 @@ import re
 from ..src import walk, calls, call_name, dotted, const, loc, unparse, norm, AnchorError, ExtractError, last_attr, parent
 from ..peval import Evaluator, Obj, Unknown, Raised
 from ..cfg import CFG
-from ..symx import SymExec, Opaque
+from ..symx import SymExec, Opaque, State
 
 CTRL = "wntr/network/controls.py"
 CORE = "wntr/sim/core.py"
@@ -220,34 +220,7 @@ def run(repo, chk):
         chk.expect(re.fullmatch(r"self\._rule_iter \* self\._wn\.options\.time\.rule_timestep", v) is not None, "R-C04-4", "rules are evaluated at rule_iter * rule_timestep (line %d)" % g.g.nodes[s_]["line"], loc(pre, g.node_ast(s_)), found=v)
 
     # ---------------------------------------------------------------- R-C04-5 classification
-    from ._shared import control_type_table
-    table_, default_, ci, init_ok = control_type_table(repo)
-    chk.fn(ci)
-    chk.expect(init_ok, "R-C04-5", "Control.__init__ stores the classification of the condition it was given", loc(ci))
-    chk.expect(table_.get("TankLevelCondition") == "_ControlType.pre_and_postsolve", "R-C04-5", "tank-level controls are pre- and post-solve", loc(ci), found=table_)
-    tkey = [k for k in table_ if "SimTimeCondition" in k and "TimeOfDayCondition" in k]
-    chk.expect(bool(tkey) and table_[tkey[0]] == "_ControlType.presolve", "R-C04-5", "time-conditioned controls are pre-solve (back-tracked to their instant)", loc(ci), found=table_)
-    chk.expect(default_ == "_ControlType.postsolve", "R-C04-5", "other simple controls are post-solve", loc(ci), found=default_)
-    ri = repo.func(CTRL, "Rule.__init__")
-    chk.expect("_ControlType.rule" in unparse(ri), "R-C04-5", "rules are classified as rules", loc(ri))
-    gm = repo.func(CORE, "WNTRSimulator._get_control_managers")
-    cat = [n for n in walk(gm, skip_nested=False) if isinstance(n, ast.FunctionDef) and n.name == "categorize_control"]
-    if not cat:
-        raise AnchorError("_get_control_managers.categorize_control vanished")
-    got = {}
-    for n in walk(cat[0]):
-        if isinstance(n, ast.If):
-            types = set(re.findall(r"_ControlType\.(\w+)", unparse(n.test)))
-            for c in calls(n, attr="register_control"):
-                if c in [cc for s in n.body for cc in calls(s)]:
-                    got.setdefault(unparse(c.func.value), set()).update(types)
-    want = {"self._presolve_controls": {"presolve", "pre_and_postsolve"}, "self._postsolve_controls": {"postsolve", "pre_and_postsolve"},
-            "self._rules": {"rule"}, "self._feasibility_controls": {"feasibility"}}
-    for k, v in want.items():
-        chk.expect(got.get(k) == v, "R-C04-5", "%s receives exactly the control types %s" % (k, sorted(v)), loc(gm), found=sorted(got.get(k, [])))
-    srcs = [unparse(x.iter) for x in walk(gm) if isinstance(x, ast.For) and any(last_attr(c) == "categorize_control" or call_name(c) == "categorize_control" for c in calls(x))]
-    need = {"self._wn.controls()", "self._get_all_tank_controls()", "self._get_cv_controls()", "self._get_pump_controls()", "self._get_valve_controls()"}
-    chk.expect(need <= set(srcs), "R-C04-5", "user controls and all internal control families are categorised", loc(gm), found=srcs)
+    classification_rules(repo, chk, "R-C04-5")
 
     # ---------------------------------------------------------------- R-C04-6 partial step bookkeeping
     backs = g.nodes_where(lambda node, d: isinstance(node, ast.AugAssign) and unparse(node.target) == "self._wn.sim_time" and isinstance(node.op, ast.Sub) and unparse(node.value) == "backtrack")
@@ -289,6 +262,336 @@ def run(repo, chk):
     for c in tcalls:
         chk.expect(unparse(c.args[1]) == "run_at_time" and unparse(c.args[4]) == "action_obj", "R-C04-7", "reader passes the parsed time and the action (line %d)" % c.lineno, loc(rcl, c))
 
+
+
+# ------------------------------------------------------------------ classification of controls (decided by execution, not by shape)
+def class_ancestors(classes, name):
+    """the class and all its ancestors defined in the same module, nearest first (bases are followed by name, also through wrappers
+    such as six.with_metaclass(Meta, Base))."""
+    out, todo = [], [name]
+    while todo:
+        c = todo.pop(0)
+        if c in out:
+            continue
+        out.append(c)
+        node = classes.get(c)
+        for b in (node.bases if node is not None else []):
+            for x in ast.walk(b):
+                nm = x.id if isinstance(x, ast.Name) else (x.attr if isinstance(x, ast.Attribute) else None)
+                if nm in classes and nm not in out:
+                    todo.append(nm)
+    return out
+
+
+def resolved_methods(classes, name):
+    """method name -> def, as attribute lookup on an instance of the class finds it (nearest class of the ancestor chain wins)."""
+    out = {}
+    for c in class_ancestors(classes, name):
+        for n in classes[c].body:
+            if isinstance(n, ast.FunctionDef) and not any(isinstance(d, ast.Attribute) and d.attr == "setter" for d in n.decorator_list):
+                if n.name not in out:
+                    n._rel = getattr(classes[c], "_rel", None)
+                    n._qual = c + "." + n.name
+                    out[n.name] = n
+    return out
+
+
+class DecidedExec(object):
+    """Path enumeration (SymExec) of ONE function for ONE concrete case of its input:
+
+    * branch tests (if / elif / conditional expressions, through not / and / or) are decided by `leaf(node, state, ex)` -> True / False /
+      None, so an if-chain, early returns, a conditional expression and a lookup table all reduce to the one outcome of the case;
+    * calls to helpers that can matter (`relevant(def)`): other methods of the class reached through self / cls / the class name, defs
+      nested in the function and module-level functions are executed in place -- their stores and calls join the caller's events in
+      program order -- so it does not matter whether the logic sits in the function, in a closure, in a method or in a module function;
+    * `for x in <tuple / list value>` is unrolled.
+
+    A helper whose outcome still depends on an undecided test is an ExtractError (never a guess)."""
+
+    def __init__(self, fn, class_names, methods, module_funcs, relevant, leaf, attr_hook=None):
+        self.fn = fn
+        self.class_names = set(class_names)
+        self.methods = methods
+        self.module_funcs = module_funcs
+        self.nested = {n.name: n for n in ast.walk(fn) if isinstance(n, ast.FunctionDef) and n is not fn}
+        self.relevant = relevant
+        self.leaf = leaf
+        self.active = []
+        self.ex = SymExec(call_hook=self._call, test_hook=self._test, attr_hook=attr_hook)
+        self.ex.unroll_opaque = True
+
+    def paths(self):
+        """the paths that do not end in a raise."""
+        return [o for o in self.ex.run(self.fn) if o.raised is None]
+
+    # tests
+    def _test(self, txt, node, st):
+        while isinstance(node, ast.UnaryOp) and isinstance(node.op, ast.Not):
+            node = node.operand           # SymExec strips the same leading negations from `txt` and applies them itself
+        return self._bool(node, st)
+
+    def _bool(self, node, st):
+        if isinstance(node, ast.UnaryOp) and isinstance(node.op, ast.Not):
+            v = self._bool(node.operand, st)
+            return None if v is None else (not v)
+        if isinstance(node, ast.BoolOp):
+            vs = [self._bool(v, st) for v in node.values]
+            hit, miss = (False, True) if isinstance(node.op, ast.And) else (True, False)
+            if any(v is hit for v in vs):
+                return hit
+            return miss if all(v is miss for v in vs) else None
+        if isinstance(node, ast.Compare) and len(node.ops) == 1 and isinstance(node.ops[0], (ast.Eq, ast.Is, ast.NotEq, ast.IsNot)) \
+                and isinstance(node.comparators[0], ast.Constant) and isinstance(node.comparators[0].value, bool):
+            v = self._bool(node.left, st)       # `x == False` / `x is True` ...
+            if v is None:
+                return None
+            return (v == node.comparators[0].value) == isinstance(node.ops[0], (ast.Eq, ast.Is))
+        return self.leaf(node, st, self.ex)
+
+    # helpers executed in place
+    def _call(self, name, n, args, kwargs, st, ex, recv):
+        f = n.func
+        target, bound, closure = None, list(args), False
+        if isinstance(f, ast.Name) and f.id not in st.env:
+            if f.id in self.nested:
+                target, closure = self.nested[f.id], True
+            elif f.id in self.module_funcs:
+                target = self.module_funcs[f.id]
+        elif isinstance(f, ast.Attribute) and isinstance(f.value, ast.Name) and f.attr in self.methods \
+                and (f.value.id in ("self", "cls") or f.value.id in self.class_names):
+            target = self.methods[f.attr]
+            decos = set(unparse(d) for d in target.decorator_list)
+            if "staticmethod" in decos:
+                pass
+            elif "classmethod" in decos:
+                bound = [Opaque("cls")] + bound
+            elif f.value.id == "self":
+                bound = [st.env.get("self", Opaque("self"))] + bound
+        if target is None or target is self.fn or target in self.active or len(self.active) >= 4 or not self.relevant(target):
+            return NotImplemented
+        a = target.args
+        if a.vararg or a.kwarg or len(bound) > len(a.args):
+            return NotImplemented
+        env = dict(st.env) if closure else {}
+        for p_, d_ in zip(a.args[len(a.args) - len(a.defaults):], a.defaults):
+            env[p_.arg] = ex.ev(d_, State())
+        for p_, d_ in zip(a.kwonlyargs, a.kw_defaults):
+            if d_ is not None:
+                env[p_.arg] = ex.ev(d_, State())
+        for p_, v in zip(a.args, bound):
+            env[p_.arg] = v
+        env.update(kwargs)
+        sub = State(env)
+        sub.conds = list(st.conds)
+        sub.loops = list(st.loops)
+        self.active.append(target)
+        try:
+            outs = ex.block(target.body, [sub])
+        finally:
+            self.active.pop()
+        live = [o for o in outs if o.raised is None]
+        if not live:
+            raise ExtractError("helper %s (called at line %s) raises on every path of the case under analysis" % (target.name, getattr(n, "lineno", "?")))
+        sig = set((ex.text(o.ret), tuple((e[0], e[1]) for e in o.events if e[0] in ("store", "call"))) for o in live)
+        if len(sig) != 1:
+            raise ExtractError("helper %s (called at line %s): its outcome depends on a test that could not be decided: %s" % (
+                target.name, getattr(n, "lineno", "?"), "; ".join(sorted(set(o.label() for o in live)))[:300]))
+        o = live[0]
+        st.events.extend(o.events)
+        if len(live) == 1:
+            st.conds = list(o.conds)
+        return o.ret
+
+
+def _last_store(o, target):
+    """(index in the event list, value) of the last store to `target` on path o, or (None, None)."""
+    got = (None, None)
+    for i, e in enumerate(o.events):
+        if e[0] == "store" and e[1] == target:
+            got = (i, e[2])
+    return got
+
+
+def _member(v, enum="_ControlType"):
+    """'presolve' for the value <_ControlType.presolve>, else None."""
+    if isinstance(v, Opaque) and v.text.startswith(enum + ".") and v.text.count(".") == 1:
+        return v.text.split(".")[1]
+    return None
+
+
+def classification_rules(repo, chk, rule):
+    classes = repo.classes(CTRL)
+    tree = repo.tree(CTRL)
+    module_funcs = {n.name: n for n in tree.body if isinstance(n, ast.FunctionDef)}
+    if "Control" not in classes or "ControlCondition" not in classes or "_ControlType" not in classes:
+        raise AnchorError("controls.py: class Control / ControlCondition / _ControlType vanished")
+    members = [t.id for s in classes["_ControlType"].body if isinstance(s, ast.Assign) for t in s.targets if isinstance(t, ast.Name)]
+    if not {"presolve", "postsolve", "rule", "pre_and_postsolve", "feasibility"} <= set(members):
+        raise AnchorError("_ControlType members changed: %s" % members)
+
+    # ---- (a) the type Control.__init__ leaves on a simple control, per concrete class of its condition
+    cmeths = resolved_methods(classes, "Control")
+    ci = cmeths.get("__init__")
+    if ci is None or ci._qual != "Control.__init__":
+        raise AnchorError("Control.__init__ vanished")
+    chk.fn(ci)
+    cond_classes = sorted(c for c in classes if c != "ControlCondition" and "ControlCondition" in class_ancestors(classes, c))
+    if not {"TankLevelCondition", "SimTimeCondition", "TimeOfDayCondition", "ValueCondition"} <= set(cond_classes):
+        raise AnchorError("condition classes not found in %s: %s" % (CTRL, cond_classes))
+    OTHER = "<a ControlCondition subclass defined elsewhere>"
+    mentions_type = lambda d: any(isinstance(x, ast.Attribute) and x.attr == "_control_type" for x in ast.walk(d)) or "_ControlType" in unparse(d)
+
+    def type_left_by(fn, meths, cls_names, kname, params=("condition",)):
+        """-> (member name or None, problem text or None): the value of self._control_type after fn ran for a condition of class kname."""
+        anc = class_ancestors(classes, kname) if kname in classes else [kname, "ControlCondition"]
+        is_cond = lambda v: isinstance(v, Opaque) and v.text in params + ("self._condition",)
+
+        def names_of(node, st, ex):
+            elts = node.elts if isinstance(node, (ast.Tuple, ast.List, ast.Set)) else [node]
+            out = []
+            for e in elts:
+                nm = e.id if isinstance(e, ast.Name) else (e.attr if isinstance(e, ast.Attribute) else None)
+                if nm is None or (isinstance(e, ast.Name) and e.id in st.env):
+                    return None
+                out.append(nm)
+            return out
+
+        def leaf(node, st, ex):
+            if isinstance(node, ast.Call) and isinstance(node.func, ast.Name) and node.func.id == "isinstance" and len(node.args) == 2 and not node.keywords:
+                if not is_cond(ex.ev(node.args[0], st)):
+                    return None
+                ns = names_of(node.args[1], st, ex)
+                return None if ns is None else any(x in anc for x in ns)
+            if isinstance(node, ast.Compare) and len(node.ops) == 1 and isinstance(node.left, ast.Call) and isinstance(node.left.func, ast.Name) \
+                    and node.left.func.id == "type" and len(node.left.args) == 1 and is_cond(ex.ev(node.left.args[0], st)):
+                ns = names_of(node.comparators[0], st, ex)
+                op = node.ops[0]
+                if ns is None:
+                    return None
+                if isinstance(op, (ast.Eq, ast.Is, ast.NotEq, ast.IsNot)) and len(ns) == 1 and not isinstance(node.comparators[0], (ast.Tuple, ast.List, ast.Set)):
+                    return (ns[0] == anc[0]) == isinstance(op, (ast.Eq, ast.Is))
+                if isinstance(op, (ast.In, ast.NotIn)) and isinstance(node.comparators[0], (ast.Tuple, ast.List, ast.Set)):
+                    return (anc[0] in ns) == isinstance(op, ast.In)
+            return None
+        dx = DecidedExec(fn, cls_names, meths, module_funcs, mentions_type, leaf)
+        outs = dx.paths()
+        vals = set()
+        for o in outs:
+            i, v = _last_store(o, "self._control_type")
+            if i is None:
+                return None, "a path stores no _control_type (%s)" % (o.label() or "unconditional")
+            later_init = [e[1] for e in o.events[i + 1:] if e[0] == "call" and (e[2][0] or "").endswith("__init__")]
+            if later_init:
+                return None, "the type is stored before %s, which overwrites it" % later_init[0][:60]
+            m = _member(v)
+            if m is None:
+                return None, "stored value %s is not a member of _ControlType decided by the class of the condition" % (v,)
+            vals.add(m)
+        if len(vals) != 1:
+            return None, "stored type depends on something else than the class of the condition: %s" % sorted(vals)
+        return vals.pop(), None
+
+    got_type, problems = {}, []
+    for k in cond_classes + [OTHER]:
+        m, why = type_left_by(ci, cmeths, class_ancestors(classes, "Control"), k)
+        got_type[k] = m
+        if why:
+            problems.append("%s: %s" % (k, why))
+    chk.expect(not problems, rule, "Control.__init__ stores the classification of the condition it was given", loc(ci), found="; ".join(problems[:3]))
+    is_a = lambda k, *bases: k in classes and any(b in class_ancestors(classes, k) for b in bases)
+    tank = [k for k in cond_classes if is_a(k, "TankLevelCondition")]
+    timed = [k for k in cond_classes if is_a(k, "SimTimeCondition", "TimeOfDayCondition")]
+    other = [k for k in cond_classes + [OTHER] if k not in tank and k not in timed]
+    show = lambda ks: dict((k, "_ControlType.%s" % got_type[k] if got_type[k] else None) for k in ks)
+    chk.expect(all(got_type[k] == "pre_and_postsolve" for k in tank), rule, "tank-level controls are pre- and post-solve", loc(ci), found=show(tank))
+    chk.expect(all(got_type[k] == "presolve" for k in timed), rule, "time-conditioned controls are pre-solve (back-tracked to their instant)", loc(ci), found=show(timed))
+    wrong = [k for k in other if got_type[k] != "postsolve"]
+    chk.expect(not wrong, rule, "other simple controls are post-solve", loc(ci), found=show(wrong))
+    chk.sample({"rule": rule, "classification": show(cond_classes + [OTHER])})
+
+    # ---- (b) rules are rules, whatever their condition
+    rmeths = resolved_methods(classes, "Rule")
+    ri = rmeths.get("__init__")
+    if ri is None or ri._qual != "Rule.__init__":
+        raise AnchorError("Rule.__init__ vanished")
+    rt = {}
+    for k in ("SimTimeCondition", "TimeOfDayCondition", "TankLevelCondition", "ValueCondition", OTHER):
+        rt[k], why = type_left_by(ri, rmeths, class_ancestors(classes, "Rule"), k)
+    chk.expect(all(v == "rule" for v in rt.values()), rule, "rules are classified as rules", loc(ri), found=rt)
+
+    # ---- (c) the property the simulator reads is the stored type
+    gp = [n for c in class_ancestors(classes, "Control") for n in classes[c].body if isinstance(n, ast.FunctionDef) and n.name == "epanet_control_type"
+          and any(isinstance(d, ast.Name) and d.id == "property" for d in n.decorator_list)]
+    if not gp:
+        raise AnchorError("property epanet_control_type of Control / Rule / ControlBase vanished")
+    gp[0]._rel = CTRL
+    rets = [o.ret for o in SymExec().run(gp[0]) if o.raised is None]
+    chk.expect(bool(rets) and all(r == Opaque("self._control_type") for r in rets), rule, "epanet_control_type reports the stored _control_type", loc(gp[0]), found=rets)
+
+    # ---- (d) which checker of the simulator receives which type, from which sources
+    sclasses = repo.classes(CORE)
+    if "WNTRSimulator" not in sclasses:
+        raise AnchorError("class WNTRSimulator vanished")
+    smeths = resolved_methods(sclasses, "WNTRSimulator")
+    gm = smeths.get("_get_control_managers")
+    if gm is None:
+        raise AnchorError("WNTRSimulator._get_control_managers vanished")
+    chk.fn(gm)
+    core_funcs = {n.name: n for n in repo.tree(CORE).body if isinstance(n, ast.FunctionDef)}
+    registers = lambda d: any(isinstance(x, ast.Attribute) and x.attr == "register_control" for x in ast.walk(d))
+
+    def type_leaf(node, st, ex):
+        if isinstance(node, ast.Compare) and len(node.ops) == 1:
+            op = node.ops[0]
+            l, r = ex.ev(node.left, st), ex.ev(node.comparators[0], st)
+            if isinstance(op, (ast.Eq, ast.Is, ast.NotEq, ast.IsNot)):
+                a, b = _member(l), _member(r)
+                if a is None or b is None:
+                    return None
+                return (a == b) == isinstance(op, (ast.Eq, ast.Is))
+            if isinstance(op, (ast.In, ast.NotIn)) and _member(l) is not None:
+                if isinstance(r, dict):
+                    ms = [k.split(".")[1] if isinstance(k, str) and k.startswith("_ControlType.") and k.count(".") == 1 else None for k in r]
+                elif isinstance(r, (list, tuple)):
+                    ms = [_member(x) for x in r]
+                else:
+                    return None
+                if None in ms:
+                    return None
+                return (_member(l) in ms) == isinstance(op, ast.In)
+        return None
+
+    regs = {}        # member -> {receiver text: set(source iterables)}
+    for m in members:
+        hook = lambda base, attr, st, m=m: Opaque("_ControlType." + m) if attr in ("epanet_control_type", "_control_type") and isinstance(base, Opaque) else NotImplemented
+        dx = DecidedExec(gm, class_ancestors(sclasses, "WNTRSimulator"), smeths, core_funcs, registers, type_leaf, attr_hook=hook)
+        per_path = []
+        for o in dx.paths():
+            here = {}
+            for e in o.events:
+                mm = re.match(r"^(.*)\.register_control\((.*)\)$", e[1]) if e[0] == "call" else None
+                if not mm:
+                    continue
+                args = e[2][1]
+                if len(args) != 1 or not isinstance(args[0], Opaque) or not e[4]:
+                    raise ExtractError("_get_control_managers: registration `%s` at line %s is not of a control drawn from a source loop" % (e[1], e[3]))
+                here.setdefault(mm.group(1), set()).add(e[4][-1])
+            per_path.append(here)
+        if not per_path:
+            raise ExtractError("_get_control_managers: no path analysed for control type %s" % m)
+        if any(p_ != per_path[0] for p_ in per_path[1:]):
+            raise ExtractError("_get_control_managers: the registration of %s controls depends on a test that could not be decided" % m)
+        regs[m] = per_path[0]
+    want = {"self._presolve_controls": {"presolve", "pre_and_postsolve"}, "self._postsolve_controls": {"postsolve", "pre_and_postsolve"},
+            "self._rules": {"rule"}, "self._feasibility_controls": {"feasibility"}}
+    for k, v in want.items():
+        got = set(m for m in members if k in regs[m])
+        chk.expect(got == v, rule, "%s receives exactly the control types %s" % (k, sorted(v)), loc(gm), found=sorted(got))
+    need = ["self._wn.controls()", "self._get_all_tank_controls()", "self._get_cv_controls()", "self._get_pump_controls()", "self._get_valve_controls()"]
+    missing = sorted(set("%s controls from %s -> %s" % (m, n_, k) for m in members for k, srcs in regs[m].items() for n_ in need if not any(n_ in s_ for s_ in srcs)))
+    allsrcs = sorted(set(s_ for m in members for srcs in regs[m].values() for s_ in srcs))
+    chk.expect(not missing and bool(allsrcs), rule, "user controls and all internal control families are categorised", loc(gm), found=missing[:4] or allsrcs)
+    chk.sample({"rule": rule, "registrations": dict((m, dict((k, sorted(v)) for k, v in regs[m].items())) for m in members)})
 
 
 # ------------------------------------------------------------------ effective ordering of the control lists
